@@ -220,8 +220,9 @@ def check(run, ctx):
                   decides="`config set` changes the file that was read, and every value the JSON writer emits is read back unchanged")
     cli_main = next((f_ for f_ in repo.funcs_in("src.cli.main.") if f_.name == "cli"), None)
     run.require(cli_main is not None, "src.cli.main.cli not found")
-    loads = [c_.args[0] for c_ in ast.walk(cli_main.node) if is_call_named(c_, "load_config") and c_.args]
-    stores = [n.value for n in ast.walk(cli_main.node) if isinstance(n, ast.Assign) and any(isinstance(t, ast.Subscript) and isinstance(t.slice, ast.Constant) and t.slice.value == "config_path" for t in n.targets) and not (isinstance(n.value, ast.Constant) and n.value.value is None)]
+    cli_flat = list(inline.flat_nodes(repo, cli_main))   # the loading block may live in a private helper (parameters substituted)
+    loads = [c_.args[0] for c_ in cli_flat if is_call_named(c_, "load_config") and c_.args]
+    stores = [n.value for n in cli_flat if isinstance(n, ast.Assign) and any(isinstance(t, ast.Subscript) and isinstance(t.slice, ast.Constant) and t.slice.value == "config_path" for t in n.targets) and not (isinstance(n.value, ast.Constant) and n.value.value is None)]
     run.require(bool(loads) and bool(stores), "cli(): load_config(<path>) / ctx.obj['config_path'] = <path> not found")
     if {norm(x) for x in loads} == {norm(x) for x in stores}:
         run.ok(G9, "cli --config path", f"loaded and remembered as {norm(loads[0])}")
